@@ -34,6 +34,14 @@ CLAIMED = {
    text="OCRAInput.Validate, SuiteConfig.Validate, RawSuite.Validate/Config and challengeLength are executed from their SSA with all five field lengths symbolic (0..140, or nil), every SuiteConfig field symbolic (hash 0..255, digits and time step any int, challenge format 0..6, password hash 0..3, five free flags): on every path the solver proves err == nil <=> the property's predicate (written once from its text as a formula over the lengths and fields) for both validators. Through GenerateOCRA / ValidateOCRA (hash, digits per case, everything else symbolic, undecodable secret as an extra failure cause) it proves success <=> decodable and usable and admitted, no code with an error, code length = digits, and (false, err) from validation whenever generation would fail.",
    note="Bounds: field lengths 0..140; enum values of ChallengeFormat / PasswordHashAlgorithm restricted to the declared constants (the property quantifies over formats and password hashes; with an undeclared PasswordHash the code only checks presence - observation, not alarmed on); entry harness: hash {0,2,3}, digits {6,11} quick, hash 0..3, digits {3,4,6,10,11} thorough. HMAC digests are fresh variables here.",
    design="DESIGN.md section 2/C14"),
+ "C05": dict(
+   text="GenerateOCRA/deriveRFC6287/padBytes/formatDecimal/truncate and both validators are executed from their SSA for each of the 32 subsets of {C,Q,P,S,T} (hand-built SuiteConfig and RawSuite wrapper, suite-string text of symbolic content, symbolic time step) with all five input fields of symbolic length 0..140 and symbolic content, and an adversarial pooled buffer (arbitrary length and content). On every admitted path the solver proves: one HMAC with the suite's hash under the decoded key; the message handed to HMAC equals, byte for byte, suite ‖ 00 ‖ [C:8] ‖ [Q right-padded to 128] ‖ [P] ‖ [S right-padded to 128] ‖ [T:8] built independently from the property text; unselected fields and the pooled buffer's previous content have no influence (syntactic check, 2-safety solver query when variables occur); the code is formatDecimal(truncate(D, 10^digits)). The arithmetic tail is proved for every digest against DT(D) mod 10^digits zero-padded (digits {4,6,8,10} quick, 4..10 thorough). Registered suites are instantiated by name and checked the same way (6 names quick, all 45 thorough).",
+   note="Bounds: field lengths 0..140, suite string 24 bytes quick / 0 and 48 thorough, hash SHA-1 quick (all three thorough) in the layout harness (the hash only selects the constructor), challenge format / password hash one value quick, two thorough. HMAC digests are fresh variables shared between structurally identical (key,message) pairs. Admission (which inputs reach HMAC) is C14. Parsed, non-registered suite strings reach this code as a SuiteConfig with arbitrary Raw text, which is covered.",
+   design="DESIGN.md section 2/C05"),
+ "C06": dict(
+   text="ValidateOCRA and GenerateOCRA are executed from their SSA on the same symbolic suite / input / secret (field lengths 0..140 symbolic, undecodable secret as an outcome, flags per case); the submitted string is arbitrary bytes, the generated code, the generated code with one byte replaced, or of wrong length. On every path the solver proves ok <=> (generation succeeds and string == generated code), ok <=> err == nil, and generation failure => (false, err); neither call panics, including for suites with digits -1, 0, 3, 11 and unsupported hashes (digits read before validation).",
+   note="Bounds: subsets {Q},{C,Q},{Q,P},{Q,S},{all} quick, all 32 thorough; digits 6 quick, {4,10} thorough. The two derivations share digest variables when their (key, message) terms are structurally identical; a semantic-but-not-structural equality would surface as an unconfirmed model (engine error), never as a pass.",
+   design="DESIGN.md section 2/C06"),
 }
 
 NA_REASON_PENDING = "not yet built in this session: no solver-based check registered (see DESIGN.md for the planned encoding)"
